@@ -10,6 +10,7 @@ import (
 	"os/exec"
 	"path/filepath"
 	"regexp"
+	"runtime"
 	"sort"
 	"strconv"
 	"strings"
@@ -325,6 +326,10 @@ func run(repo, verif string, ids []string, tier, onlyOb string, nowrite, list bo
 						}
 					}
 				}
+				props.Forget(pm)
+				pm = nil
+				kit.Current = prog
+				runtime.GC()
 				if len(by) > 0 {
 					fired++
 					fmt.Printf("  control %s: reported by %s\n", name, by[0])
@@ -344,6 +349,88 @@ func run(repo, verif string, ids []string, tier, onlyOb string, nowrite, list bo
 				nviol++
 				fmt.Printf("  CONTROL FAILURE: %d seeded change(s) of %s are no longer reported (expected at most %d misses, listed in DESIGN.md §9)\n", silent, id, expectSilent)
 				fmt.Printf("VIOLATION property=%s replay=%s\n", id, "positive-control")
+			}
+		}
+		// (3) negative controls: behaviour-preserving refactorings of the files this property's
+		// obligations have sites in, applied as overlays, must not add a report
+		if tier == "thorough" && onlyOb == "" {
+			siteFiles := map[string]bool{}
+			for _, r := range results {
+				for _, s := range r.Sites {
+					if i := strings.LastIndex(s.Pos, ":"); i > 0 {
+						siteFiles[s.Pos[:i]] = true
+					}
+				}
+			}
+			refs, _ := filepath.Glob(filepath.Join(verif, "refactors", "*", "patch.diff"))
+			sort.Strings(refs)
+			quiet, noisy, skippedR := 0, 0, 0
+			for _, patch := range refs {
+				name := filepath.Base(filepath.Dir(patch))
+				data, _ := os.ReadFile(patch)
+				touches := false
+				for _, l := range strings.Split(string(data), "\n") {
+					if strings.HasPrefix(l, "+++ b/") && siteFiles[strings.TrimPrefix(l, "+++ b/")] {
+						touches = true
+					}
+				}
+				if !touches {
+					continue
+				}
+				ov, err := overlayFromPatch(repo, patch)
+				if err != nil {
+					skippedR++
+					controls = append(controls, map[string]any{"control": "refactoring " + name, "result": "skipped: " + err.Error()})
+					continue
+				}
+				pm, err := kit.Load(repo, ov, nil)
+				if err != nil {
+					skippedR++
+					controls = append(controls, map[string]any{"control": "refactoring " + name, "result": "skipped: does not type-check"})
+					continue
+				}
+				var by []string
+				for _, ob := range obs {
+					r := pm.Run(ob)
+					for _, v := range r.Viols {
+						known := false
+						for _, k := range kf.Findings {
+							if k.Property == id && k.Key == v.Key && k.Status == "known" {
+								known = true
+							}
+						}
+						onBase := false
+						for _, bv := range violOut {
+							if bv.Key == v.Key {
+								onBase = true
+							}
+						}
+						if !known && !onBase {
+							by = append(by, v.Key)
+						}
+					}
+				}
+				props.Forget(pm)
+				pm = nil
+				kit.Current = prog
+				runtime.GC()
+				if len(by) == 0 {
+					quiet++
+					controls = append(controls, map[string]any{"control": "refactoring " + name, "result": "silent (as required)"})
+				} else {
+					noisy++
+					fmt.Printf("  control %s (behaviour-preserving refactoring): FALSE ALARM %s\n", name, by[0])
+					controls = append(controls, map[string]any{"control": "refactoring " + name, "result": "false alarm", "by": by})
+				}
+			}
+			fmt.Printf("  thorough: %d refactoring controls silent, %d raised a false alarm, %d skipped\n", quiet, noisy, skippedR)
+			counters["refactorings:silent"] = quiet
+			counters["refactorings:false_alarm"] = noisy
+			counters["refactorings:skipped"] = skippedR
+			if noisy > 0 {
+				nviol++
+				fmt.Printf("  CONTROL FAILURE: a rule of %s fires on a behaviour-preserving refactoring — the rule is too syntactic and its reports cannot be trusted\n", id)
+				fmt.Printf("VIOLATION property=%s replay=%s\n", id, "negative-control")
 			}
 		}
 		wall := time.Since(t0).Seconds() + loadS
